@@ -338,7 +338,7 @@ func verifLemmaUint32RoundTrip(schema *schema_j5pb.Field, pv protoreflect.Value)
 //@   ensures bits == 64 ==> ((result1 == nil) <==> (astInt(recv) && 0 <= astIntVal(recv) && astIntVal(recv) <= 18446744073709551615))
 //@   ensures result1 == nil ==> result0 == astIntVal(recv)
 //@ func scalarReflectFromAST
-//@   requires schema != nil && value != nil
+//@   requires schema != nil
 //@   ensures int32: intFmt(schema, schema_j5pb.IntegerField_FORMAT_INT32) ==> ((result1 == nil) <==> (astInt(value) && 0 - 2147483648 <= astIntVal(value) && astIntVal(value) <= 2147483647)) && (result1 == nil ==> pvNum(result0) == astIntVal(value))
 //@   ensures int64: intFmt(schema, schema_j5pb.IntegerField_FORMAT_INT64) ==> ((result1 == nil) <==> (astInt(value) && 0 - 9223372036854775808 <= astIntVal(value) && astIntVal(value) <= 9223372036854775807)) && (result1 == nil ==> pvNum(result0) == astIntVal(value))
 //@   ensures uint32: intFmt(schema, schema_j5pb.IntegerField_FORMAT_UINT32) ==> ((result1 == nil) <==> (astInt(value) && 0 <= astIntVal(value) && astIntVal(value) <= 4294967295)) && (result1 == nil ==> pvNum(result0) == astIntVal(value))
